@@ -102,12 +102,88 @@ fn explore(args: &[String]) {
     let _ = Verdict::Inconclusive("x");
 }
 
+/// `tyv check` runs the workload in a child process. An abort inside the formatter (allocation failure, stack exhaustion)
+/// escapes `catch_unwind` and kills that child; the child's SIGABRT handler leaves the input it was formatting in a breadcrumb
+/// file, and this parent turns it into a verdict: C05 violation when the input also kills an isolated worker, inconclusive otherwise.
+fn supervise(args: &[String]) -> i32 {
+    use std::os::unix::process::ExitStatusExt;
+    let prop = args.get(2).cloned().unwrap_or_default();
+    let tier = args.get(3).cloned().unwrap_or_else(|| "quick".into());
+    let crumb = util::verif_dir().join("target").join(format!("crash-crumb-{}-{}.bin", prop, std::process::id()));
+    let _ = std::fs::create_dir_all(crumb.parent().unwrap());
+    let status = std::process::Command::new(std::env::current_exe().unwrap())
+        .args(&args[1..])
+        .env("TYV_INNER", "1")
+        .env("TYV_CRUMB", &crumb)
+        .status();
+    let Ok(status) = status else {
+        println!("INCONCLUSIVE property={} reason=could-not-start-the-check-process", prop);
+        return 2;
+    };
+    if let Some(c) = status.code() {
+        if (0..=2).contains(&c) {
+            let _ = std::fs::remove_file(&crumb);
+            return c;
+        }
+    }
+    let how = match status.signal() {
+        Some(s) => format!("signal {}", s),
+        None => format!("exit status {:?}", status.code()),
+    };
+    let found = fmtx::read_crash_crumb(crumb.to_str().unwrap_or(""));
+    let _ = std::fs::remove_file(&crumb);
+    let Some((cfg, text)) = found else {
+        println!("INCONCLUSIVE property={} reason=check-process-died({}) and left no breadcrumb naming the input", prop, how);
+        return 2;
+    };
+    match p_total::dies_in_isolation(&text, cfg) {
+        Some((true, worker)) if prop == "C05" => {
+            let mut acc = engine::Acc::new();
+            acc.evaluations = 1;
+            acc.distinct_inputs.insert(util::hash64(&text));
+            acc.nontrivial.insert(util::hash64(&text));
+            acc.violations.push(engine::Violation {
+                property: "C05".into(),
+                input: text,
+                cfg: Some(cfg),
+                origin: "breadcrumb of the aborted check process".into(),
+                oracle: "no-abort".into(),
+                detail: format!("the check process died ({}) while formatting this input; an isolated worker formatting it alone dies too: {}", how, worker),
+                extra: serde_json::Value::Null,
+            });
+            let mut meta = engine::RunMeta::new("C05", &tier, "exploration", "RUN ABORTED: the workload process was killed while formatting the input below, so only that call is accounted for here");
+            meta.assumptions = vec!["the breadcrumb is written by the SIGABRT handler of the thread that was formatting".into()];
+            report::finish(meta, acc, 0)
+        }
+        Some((true, worker)) => {
+            let path = util::verif_dir().join("replays").join(format!("{}-abort-input.typ", prop));
+            let _ = std::fs::create_dir_all(path.parent().unwrap());
+            let _ = std::fs::write(&path, &text);
+            println!(
+                "INCONCLUSIVE property={} reason=check-process-died({}) while formatting {} [{}]; an isolated worker dies too ({}). An abort inside the formatter is a C05 violation: run the C05 check.",
+                prop, how, path.display(), cfg, worker
+            );
+            2
+        }
+        _ => {
+            println!("INCONCLUSIVE property={} reason=check-process-died({}) and the input named by the breadcrumb does not kill an isolated worker", prop, how);
+            2
+        }
+    }
+}
+
 #[global_allocator]
 static GLOBAL: p_perf::CountingAlloc = p_perf::CountingAlloc;
 
 fn main() {
     fmtx::install_panic_hook();
     let args: Vec<String> = std::env::args().collect();
+    if args.get(1).map(|s| s.as_str()) == Some("check") && std::env::var_os("TYV_INNER").is_none() {
+        std::process::exit(supervise(&args));
+    }
+    if let Ok(p) = std::env::var("TYV_CRUMB") {
+        fmtx::install_crash_crumb(&p);
+    }
     if matches!(args.get(1).map(|s| s.as_str()), Some("check" | "triage" | "explore" | "replay")) {
         let _ = rayon::ThreadPoolBuilder::new().stack_size(64 << 20).build_global();
     }
@@ -148,6 +224,7 @@ fn main() {
         #[cfg(feature = "world")]
         Some("worker-c02") => std::process::exit(p_world::worker_main()),
         Some("worker-fmt") => std::process::exit(p_pure::worker_fmt_main(&args[2..])),
+        Some("worker-crash") => std::process::exit(p_total::worker_crash_main(&args[2..])),
         Some("stress") => {
             let t: usize = args.get(2).map(|s| s.parse().unwrap()).unwrap_or(4);
             let r: usize = args.get(3).map(|s| s.parse().unwrap()).unwrap_or(3);
